@@ -48,7 +48,7 @@ SPEC int wf2(int64_t s, int64_t u) { return s >= 0 && s < MAXSECS && u >= 0 && u
    less_than(weight, threshold) <=> 0 < threshold - weight < 2^63 */
 #define C_ww_less_than_POSTS(R, A, B)   POST(strict_modular_order, ((R) != 0) == ((uint64_t)((B) - (A)) != 0 && (uint64_t)((B) - (A)) < ((uint64_t)1 << 63)))
 
-#if defined(VERIF_CBMC)
+#if defined(VERIF_CBMC) && !defined(C19_TIME_SPEC_ONLY)
 typedef struct { uint64_t f0, f1; } time_pair_t;
 #define TWF2 PRE(wf_x, t_wf(x)) PRE(wf_y, t_wf(y))
 #define TSUM PRE(no_overflow, T_SECS(x) + T_SECS(y) + 1 < MAXSECS)   /* call sites add CPU times of one process */
